@@ -118,6 +118,11 @@ func (k *Kernel) SetSlow(prefix string, div int) {
 		div = 64
 	}
 	k.slowInit, k.slowPrefix, k.slowSel, k.slowDiv = true, prefix, -1, div
+	if strings.HasPrefix(prefix, "~") {
+		// "~n": a pseudo-random fifth of the actors (every WARC write is an actor of its own, so this delays some writes and not others)
+		k.slowPrefix = ""
+		fmt.Sscan(prefix[1:], &k.slowSel)
+	}
 }
 
 func (k *Kernel) weightOf(pg *parkedG) int {
